@@ -41,7 +41,9 @@ def gen_string(rng, quote):
     has_esc = False
     for _ in range(rng.randint(0, 10)):
         r = rng.random()
-        if r < 0.7:
+        if r < 0.05:
+            parts.append('\t')                                 # a raw TAB character typed inside the quotes: one byte, 09
+        elif r < 0.7:
             parts.append(rng.choice(PLAIN))
         elif r < 0.8:
             parts.append("'" if quote == '"' else '"')       # the other quote, unescaped
